@@ -94,6 +94,10 @@ impl BorshDeserialize for Tracked {
         match b {
             b'o' => Ok(Tracked::new(b)),
             b'P' => panic!("scripted panic"),
+            // the kind of an element decoder's error must not matter to the guard
+            b'I' => Err(Error::new(ErrorKind::Interrupted, "scripted interrupted")),
+            b'U' => Err(Error::new(ErrorKind::UnexpectedEof, "scripted eof")),
+            b'W' => Err(Error::new(ErrorKind::WriteZero, "scripted write-zero")),
             _ => Err(Error::new(ErrorKind::InvalidData, "scripted error")),
         }
     }
